@@ -160,7 +160,7 @@ def angle_points(ctx):
 
 @case("C09", "dist.3d.lattice", [], kind="bounded", functions=FUN + ["geometer.point.SubspaceTensor.basis_matrix", "geometer.utils.math.orth"],
       bound="3D: pairs of points of {-1,0,2}^3 (scaled representatives), 36 lattice planes x 14 points, parallel plane pairs with rescaled/negated representatives; "
-            "3D angles for 21 direction pairs at 4 positions (three points, two lines) and two planes; 9 pairs of parallel planes (open finding KF-C09-1)")
+            "3D angles for 21 direction pairs at 4 positions (three points, two lines) and two planes; 9 pairs of parallel planes")
 def dist_3d_lattice(ctx):
     import geometer as g
     from geometer.operators import dist
@@ -225,7 +225,7 @@ def dist_3d_lattice(ctx):
                 ok = min(got, abs(got - _m.pi)) < 1e-6
             except Exception as ex:
                 ok, got = False, type(ex).__name__
-            ctx.ensure("angle-3d:two-parallel-planes-enclose-0", ok, witness=dict(e=n_ + (c1,), f=tuple(f * x for x in n_) + (c2,), got=got), excuse=("KF-C09-1", None))
+            ctx.ensure("angle-3d:two-parallel-planes-enclose-0", ok, witness=dict(e=n_ + (c1,), f=tuple(f * x for x in n_) + (c2,), got=got))
 
 
 @case("C09", "dist.point.point.3d", names("p", 3) + names("q", 3), mode="real", functions=FUN, timeout=240, max_paths=64, spare=40, xcheck=False,
